@@ -8,10 +8,13 @@
 //    advances it by one, every failed seal leaves it where it was.  By induction over
 //    the starting number: successful seals of a key created at 0 carry 0, 1, 2, ...
 //    without gaps or repeats.
-//  * c40_memory_single_loan: the real memory::State (BTreeMap + Lender/BiArc + mutex)
-//    never has two live seal contexts for one channel, keeps the sequence when a
-//    context is dropped and re-acquired, revokes it on removal, and never reuses a
-//    channel id.
+//  * c40_lender_single_loan: the real memory::lender::{Lender, Loan, BiArc} (the
+//    mechanism memory::State::setup_seal_ctx relies on) never has two live loans,
+//    keeps the exclusive data (the SealKey with its counter) across loans, and revokes
+//    access when the Lender (the channel entry) is dropped.
+//    (Scenarios through memory::State itself - BTreeMap + Arc + mutex + Client - were
+//    written and abandoned: CBMC's symbolic execution did not finish in 25 minutes for
+//    add + three setup_seal_ctx calls.)
 //
 // Outside: interleavings of seals with a concurrent writer (schedules), the
 // shared-memory reader (see c42.rs for its sequential kernel).
@@ -25,7 +28,6 @@ use aranya_crypto::{
 };
 
 use super::*;
-use crate::client::Client;
 
 #[path = "common.rs"]
 mod common;
@@ -131,189 +133,6 @@ fn c40_sealkey_seq_k2() {
 #[kani::stub(aranya_crypto::zeroize::optimization_barrier, common::no_barrier)]
 fn c40_sealkey_seq_k4() {
     sealkey_seq(4, true);
-}
-
-// ---------------------------------------------------------------------------------
-// memory::State: single loan, sequence continuity, revocation, id monotonicity
-// ---------------------------------------------------------------------------------
-
-fn seq_of_sealed(msg: &[u8]) -> u64 {
-    let n = msg.len();
-    let mut a = [0u8; 8];
-    let mut i = 0;
-    while i < 8 {
-        a[i] = msg[n - 8 + i];
-        i += 1;
-    }
-    u64::from_le_bytes(a)
-}
-
-/// One `Client::seal` of a 2-byte plaintext; returns the sequence number in the
-/// message header, or None on error.
-fn seal_once(
-    client: &Client<State<VCs<ToyAead>>>,
-    ctx: &mut SealCtx<VCs<ToyAead>>,
-    pt: &[u8; 2],
-) -> Option<u64> {
-    let mut dst = [0u8; 2 + TAG + 8];
-    match client.seal(ctx, &mut dst[..], &pt[..]) {
-        Ok(_) => Some(seq_of_sealed(&dst)),
-        Err(e) => {
-            core::mem::forget(e);
-            None
-        }
-    }
-}
-
-fn ok_or_forget<T>(r: Result<T, Error>) -> Option<T> {
-    match r {
-        Ok(v) => Some(v),
-        Err(e) => {
-            core::mem::forget(e);
-            None
-        }
-    }
-}
-
-struct Mem {
-    state: State<VCs<ToyAead>>,
-    client: Client<State<VCs<ToyAead>>>,
-    base: [u8; NONCE],
-    label: LabelId,
-    peer: DeviceId,
-    pt: [u8; 2],
-}
-
-fn mem() -> Mem {
-    let state = State::<VCs<ToyAead>>::new();
-    let client = Client::new(state.clone());
-    let lb: [u8; 32] = kani::any();
-    Mem {
-        state,
-        client,
-        base: kani::any(),
-        label: LabelId::from_bytes(lb),
-        peer: DeviceId::from_bytes(kani::any()),
-        pt: kani::any(),
-    }
-}
-
-fn add_seal(m: &Mem) -> LocalChannelId {
-    match ok_or_forget(m.state.add(
-        Directed::SealOnly {
-            seal: seal_key::<ToyAead>(&m.base, 0),
-        },
-        m.label,
-        m.peer,
-    )) {
-        Some(id) => id,
-        None => unreachable!(),
-    }
-}
-
-fn seal_ctx(m: &Mem, id: LocalChannelId) -> Option<SealCtx<VCs<ToyAead>>> {
-    ok_or_forget(m.client.setup_seal_ctx(id))
-}
-
-/// No second live seal context for a channel; no open context on a seal channel; a
-/// context can be re-acquired once the first is gone.
-fn single_loan() {
-    let m = mem();
-    let id = add_seal(&m);
-    let ctx = match seal_ctx(&m, id) {
-        Some(c) => c,
-        None => {
-            assert!(false);
-            return;
-        }
-    };
-    assert!(seal_ctx(&m, id).is_none());
-    assert!(ok_or_forget(m.client.setup_open_ctx(id)).is_none());
-    drop(ctx);
-    let again = seal_ctx(&m, id);
-    assert!(again.is_some());
-    kani::cover!(again.is_some(), "re-acquired after drop");
-    core::mem::forget(again);
-    core::mem::forget(m);
-}
-
-/// Seals carry 0, 1; dropping the context and acquiring a new one continues at 2 (the
-/// key lives in the state, not in the context): no number is handed out twice.
-fn continuity() {
-    let m = mem();
-    let id = add_seal(&m);
-    let mut ctx = match seal_ctx(&m, id) {
-        Some(c) => c,
-        None => {
-            assert!(false);
-            return;
-        }
-    };
-    assert!(seal_once(&m.client, &mut ctx, &m.pt) == Some(0));
-    assert!(seal_once(&m.client, &mut ctx, &m.pt) == Some(1));
-    drop(ctx);
-    let mut ctx = match seal_ctx(&m, id) {
-        Some(c) => c,
-        None => {
-            assert!(false);
-            return;
-        }
-    };
-    let s = seal_once(&m.client, &mut ctx, &m.pt);
-    assert!(s == Some(2));
-    kani::cover!(s == Some(2), "sequence continued");
-    core::mem::forget(ctx);
-    core::mem::forget(m);
-}
-
-/// Adding and removing OTHER channels between seals changes nothing; removing the
-/// channel itself revokes the live context.
-fn table_changes() {
-    let m = mem();
-    let id = add_seal(&m);
-    let mut ctx = match seal_ctx(&m, id) {
-        Some(c) => c,
-        None => {
-            assert!(false);
-            return;
-        }
-    };
-    assert!(seal_once(&m.client, &mut ctx, &m.pt) == Some(0));
-    let other = add_seal(&m);
-    // ids are handed out in increasing order
-    assert!(other > id);
-    assert!(seal_once(&m.client, &mut ctx, &m.pt) == Some(1));
-    assert!(ok_or_forget(AranyaState::remove(&m.state, other)).is_some());
-    assert!(seal_once(&m.client, &mut ctx, &m.pt) == Some(2));
-    assert!(ok_or_forget(AranyaState::remove(&m.state, id)).is_some());
-    let s = seal_once(&m.client, &mut ctx, &m.pt);
-    assert!(s.is_none());
-    assert!(seal_ctx(&m, id).is_none());
-    // a channel added later gets a fresh id, not a recycled one
-    let third = add_seal(&m);
-    assert!(third > other);
-    kani::cover!(s.is_none(), "revoked");
-    core::mem::forget(ctx);
-    core::mem::forget(m);
-}
-
-#[kani::proof]
-#[kani::unwind(40)]
-#[kani::stub(aranya_crypto::zeroize::optimization_barrier, common::no_barrier)]
-fn c40_memory_single_loan() {
-    single_loan();
-}
-#[kani::proof]
-#[kani::unwind(40)]
-#[kani::stub(aranya_crypto::zeroize::optimization_barrier, common::no_barrier)]
-fn c40_memory_continuity() {
-    continuity();
-}
-#[kani::proof]
-#[kani::unwind(40)]
-#[kani::stub(aranya_crypto::zeroize::optimization_barrier, common::no_barrier)]
-fn c40_memory_table_changes() {
-    table_changes();
 }
 
 // ---------------------------------------------------------------------------------
